@@ -1,0 +1,46 @@
+// Copyright 2024 The Go Authors. All rights reserved.
+// Use of this source code is governed by a BSD-style
+// license that can be found in the LICENSE file.
+
+//go:build verif
+
+package sumdb
+
+// Hooks for the runtime-verification harness (build tag verif).
+// They are not part of the public API.
+
+// VerifYield, if non-nil, is called at named points between the
+// critical sections of the client. It must be set before any
+// client goroutine starts and not changed afterwards.
+var VerifYield func(point string)
+
+// VerifInstall, if non-nil, is called under latestMu immediately before
+// the in-memory latest tree head is replaced, with the old and new sizes.
+var VerifInstall func(c *Client, oldN, newN int64)
+
+func verifYield(point string) {
+	if VerifYield != nil {
+		VerifYield(point)
+	}
+}
+
+func verifInstall(c *Client, oldN, newN int64) {
+	if VerifInstall != nil {
+		VerifInstall(c, oldN, newN)
+	}
+}
+
+// VerifParCache exposes parCache to the harness.
+type VerifParCache struct {
+	c parCache
+}
+
+// Do is parCache.Do.
+func (p *VerifParCache) Do(key interface{}, f func() interface{}) interface{} {
+	return p.c.Do(key, f)
+}
+
+// Get is parCache.Get.
+func (p *VerifParCache) Get(key interface{}) interface{} {
+	return p.c.Get(key)
+}
